@@ -36,13 +36,30 @@ Theorem C19_string_newtype_surface : forall T n df inner c ds,
   In (u x) (derives_of T (mkEntry (DNewtype n df inner c) ds)).
 Proof. exact string_newtype_surface. Qed.
 
-(* every derive typify adds by itself is satisfiable for that entry, whatever
-   the user adds on top: supertraits present in the list, and every by-value
-   field type has the trait.  (With no user derives the whole list is built in:
-   [derives_no_extras].) *)
+(* every derive typify adds by itself is satisfiable for that entry, whatever the user adds on top:
+   supertraits present in the list, and every by-value field type has the trait - EXCEPT in the
+   recorded class C19-F1 / C19-F2 (an array longer than 32 or a tuple longer than 12 reachable from
+   a field: serde / std do not implement the base traits there).  Full-strength statement (without
+   the exclusion) is refuted by [C19_known_long_array_fails] / [C19_known_long_tuple_fails]. *)
 Theorem C19_builtin_derives_derivable : forall T i e x fuel,
+  ~ Known_unsupported_aggregate T e ->
   get T i = Some e -> In x (builtin_derives T e) -> derivable x T (S fuel) i = true.
 Proof. exact builtin_derives_derivable. Qed.
+
+(* the comparison / hashing / Copy extensions never need the exclusion *)
+Theorem C19_extension_derives_derivable : forall T e x fuel,
+  In x (builtin_derives T e) -> always_derivable x = false -> derivable_entry x T (S fuel) e = true.
+Proof. exact extension_derivable_entry. Qed.
+
+Theorem C19_known_long_array_fails :
+  exists T i e x, get T i = Some e /\ Known_unsupported_aggregate T e /\
+                  In x (builtin_derives T e) /\ forall fuel, derivable x T (S (S fuel)) i = false.
+Proof. exact known_long_array_fails. Qed.
+
+Theorem C19_known_long_tuple_fails :
+  exists T i e x, get T i = Some e /\ Known_unsupported_aggregate T e /\
+                  In x (builtin_derives T e) /\ forall fuel, derivable x T (S (S fuel)) i = false.
+Proof. exact known_long_tuple_fails. Qed.
 
 (* in particular Eq / Ord / Hash are never added to an item that holds a float,
    directly or through Option / Box / Vec / array / tuple / map *)
